@@ -9,6 +9,10 @@ WideColumnCacheTrace.tla, KeyOfSetCacheTrace.tla and harness/src/bin/cache_repla
  2. S->I: TLC prints behaviours (every ReadYourWrites counterexample of the
     as-coded models in replayable interleavings + random walks) which
     cache_replay executes step by step on the real maps over a gated MemKv.
+ 2b. mutation-guided S->I: the models carry switches for plausible slips the
+    code does NOT have (LateSnapshot, LateSnapFetch, FillOverwrite,
+    NoNegativeEntry); the ReadYourWrites counterexamples of each mutant model
+    are replayed on the real maps, where every read must be right.
  3. I->S: seeded random sequential and parallel histories of the real maps.
  4. verdict: every recorded execution (2 and 3) is judged by TLC against the
     reference map (CacheObsTrace).  A run with a failing read is then
@@ -99,6 +103,12 @@ def design_check(tier, ev, wd):
               ("KeyOfSetCache", "KeyOfSetCache_D6.cfg"), ("KeyOfSetCache", "KeyOfSetCache_DFold.cfg"),
               ("KeyOfSetCache", "KeyOfSetCache_DSpill.cfg" if tier == "thorough"
                else derive_cfg(wd, "KeyOfSetCache_DSpill.cfg", MaxBatches=2))]
+    # mutants: slips the code does not have; each must break ReadYourWrites in the model
+    expect += [("KeyOfSetCache", "KeyOfSetCache_DLate.cfg" if tier == "thorough"
+                else derive_cfg(wd, "KeyOfSetCache_DLate.cfg", MaxBatches=2)),
+               ("KeyOfSetCache", "KeyOfSetCache_DLateF.cfg"),
+               ("WideColumnCache", "WideColumnCache_DOverwrite.cfg"),
+               ("WideColumnCache", "WideColumnCache_DNoNeg.cfg")]
     for mod, cfg in expect:
         r = tlc_mc(mod, cfg, timeout=600)
         if "ReadYourWrites" not in r["invariant_violated"]:
@@ -247,6 +257,81 @@ def gen_behaviours(wd, seed, tier, ev):
     return path, out
 
 
+# ------------------------------------------------- mutation-guided replays
+
+# Plausible slips of the read path that the code does NOT have.  The mutant model (every finding switch
+# repaired, one mutation switch on) is explored in the replayable configuration; the history of every get
+# that violates ReadYourWrites THERE is a behaviour that would expose the slip in the code.  They are
+# executed on the real maps, where every read must equal the reference map.
+MUTANTS = [
+    # switch, module, base cfg, constants (quick), constants (thorough), scaled to the real 1024 threshold
+    ("LateSnapshot", "KeyOfSetCache", "KeyOfSetCache_CexL.cfg", {"MaxOps": 5}, {"MaxOps": 6}, True),
+    ("LateSnapFetch", "KeyOfSetCache", "KeyOfSetCache_Cex.cfg", {"MaxBatches": 2}, {}, False),
+    ("FillOverwrite", "WideColumnCache", "WideColumnCache_Cex.cfg", {"MaxOps": 2}, {}, False),
+    ("NoNegativeEntry", "WideColumnCache", "WideColumnCache_Cex.cfg", {"MaxOps": 2}, {}, False),
+]
+
+
+def mutation_guided(wd, bd, seed, tier, ev, verdict):
+    q = tier == "quick"
+    rng = random.Random(seed + 77)
+    per = 10 if q else 60
+    out, info = [], {}
+    for sw, mod, base, cq, ct, scaled in MUTANTS:
+        sub = os.path.join(wd, "mut_" + sw)
+        os.makedirs(sub, exist_ok=True)
+        consts = {k: "FALSE" for k in code_switches(base)}   # every finding repaired in the mutant model
+        consts[sw] = "TRUE"
+        consts.update(cq if q else ct)
+        cfg = derive_cfg(sub, base, **consts)
+        r = vp.tlc(mod, cfg=cfg, workers=4, timeout=1500, extra=["-continue"], check_ok=False, xmx="6g")
+        cex = [b for b in printed_json(r["out"]) if "cex" in b]
+        if not cex:
+            raise vp.ToolError(f"mutant {sw}: the mutant model printed no counterexample\n{r['out'][-2000:]}")
+        classes = collections.OrderedDict()
+        for b in cex:
+            shape = tuple((s["a"], s.get("c")) for s in b["steps"])
+            if shape not in classes or len(json.dumps(b)) < len(json.dumps(classes[shape])):
+                classes[shape] = b
+        reps = sorted(classes.values(), key=lambda b: len(b["steps"]))
+        chosen = reps[:per // 2]
+        rest = reps[per // 2:]
+        rng.shuffle(rest)
+        chosen += rest[:per - len(chosen)]
+        for i, b in enumerate(chosen):
+            steps = [s for s in b["steps"] if s["a"] != "end"]
+            m = "set" if b["map"] == "set" else ("single" if i % 2 == 0 else "dynamic")
+            if scaled:
+                steps = scale_steps(steps, sorted({s["k"] for s in steps if "k" in s}))
+            out.append({"map": m, "cap": 1, "clients": max(2, b.get("clients", 2)), "steps": steps,
+                        "origin": "mutant", "mutant": sw, "scaled": scaled, "name": f"mut-{sw}-{i}"})
+        info[sw] = {"cfg": os.path.basename(base), "counterexamples": len(cex), "classes": len(classes),
+                    "replayed": len(chosen), "distinct": r["distinct"], "generated": r["generated"],
+                    "wall_s": round(r["wall_s"], 1)}
+        ev["states"] = ev.get("states", 0) + r["distinct"]
+        ev["transitions"] = ev.get("transitions", 0) + r["generated"]
+    bp = os.path.join(wd, "mut_behaviours.ndjson")
+    with open(bp, "w") as f:
+        for b in out:
+            f.write(json.dumps(b) + "\n")
+    tp = os.path.join(wd, "mut_replay.ndjson")
+    panics = harness(bd, tp, mode="replay", **{"in": bp})
+    events = load_trace(tp)
+    aborted = [e for e in events if e.get("e") == "reset" and e.get("aborted")]
+    if aborted:
+        raise vp.ToolError(f"mutation-guided replay: operation hangs / run aborted: {aborted[:2]}")
+    failing = []
+    n, nf = verdict_of(wd, "mutreplay", events, verdict, ev, behaviours=out, seed=seed, failing_names=failing)
+    for sw in info:
+        bad = [x for x in failing if x and x.startswith(f"mut-{sw}-")]
+        info[sw]["passed"] = info[sw]["replayed"] - len(bad)
+        info[sw]["wrong_read"] = len(bad)
+    ev["mutation_guided"] = info
+    if out:
+        ev.setdefault("mutation_samples", []).append(short(out[0], 40))
+    return n, panics
+
+
 # ----------------------------------------------------------------- traces
 
 def load_trace(path):
@@ -371,7 +456,7 @@ def renumber(runs):
     return runs
 
 
-def verdict_of(wd, name, events, verdict, ev, behaviours=None, seed=0):
+def verdict_of(wd, name, events, verdict, ev, behaviours=None, seed=0, failing_names=None):
     """Judge a trace file, classify failing runs, feed the verdict.
     Returns number of runs judged."""
     runs = renumber(split_runs(events))
@@ -387,6 +472,8 @@ def verdict_of(wd, name, events, verdict, ev, behaviours=None, seed=0):
     if harness:
         raise vp.ToolError(f"harness error in {name}: {harness[:3]}")
     failing = [r for r in runs if r[0]["id"] in byrun]
+    if failing_names is not None:
+        failing_names.extend(r[0].get("name") for r in failing)
     known = known_by_tag(verdict)
     mstats = ev.setdefault("classification", {})
     fams = {}
@@ -520,12 +607,17 @@ def run(tier, seed):
     ev["replayed_failing"] = nfail
     aborted = [e for e in events if e.get("e") == "reset" and e.get("aborted")]
     ev["replay_aborted"] = len(aborted)
+    # mutation-guided behaviours (slips the code does not have): must all pass on the real maps
+    tp0 = time.time()
+    nmut, pm = mutation_guided(wd, bd, seed, tier, ev, verdict)
+    panics += pm
+    phase["mutation_guided"] = round(time.time() - tp0, 1)
     # I->S
     q = tier == "quick"
     plans = [("seq", dict(mode="seq", seed=seed, runs=50 if q else 400, steps=60)),
              ("seqbig", dict(mode="seq", seed=seed + 1000, runs=5 if q else 30, steps=50, map="set", big=True)),
              ("par", dict(mode="par", seed=seed + 2000, runs=24 if q else 200, ops=8, chaos=300, maxw=2, maxr=2))]
-    total_runs = nruns
+    total_runs = nruns + nmut
     for name, kw in plans:
         tp0 = time.time()
         tp = os.path.join(wd, name + ".ndjson")
@@ -544,6 +636,7 @@ def run(tier, seed):
     vp.log(f"[C09] phases {phase}")
     rc = verdict.finish()
     samples = [{"behaviour_replayed": short(behs[0], 40)}, {"behaviour_replayed": short(behs[-1], 40)}] + short(ev.pop("known_samples"))
+    samples += [{"mutant_behaviour_replayed": b} for b in ev.pop("mutation_samples", [])]
     cov = {"states": ev.pop("states") + ev.get("judge_states", 0) + ev["classification"].get("m_states", 0),
            "transitions": ev.pop("transitions"),
            "traces_validated_against_impl": total_runs,
